@@ -72,7 +72,8 @@ func GenListMap(c *Case, depth int, allowNull bool) []any {
 	for i := 0; i < n; i++ {
 		var kv any
 		if key == "port" || key == "containerPort" {
-			kv = int64(80 + c.Int(4))
+			// also whole numbers that print in exponent form once they have been through a float64
+			kv = []int64{80, 81, 82, 83, 1000620000, 2147483647, 30000000}[c.Int(7)]
 		} else {
 			kv = fmt.Sprintf("k%d", c.Int(4))
 		}
